@@ -357,7 +357,7 @@ pub fn prop() -> Prop<NetCase> {
             "a reply missing after 10 s counts as a violation only if a probe on a fresh connection is answered",
         ],
         needs_shim: false,
-        budget: |t| t.pick(1600, 40_000),
+        budget: |t| t.pick(1600, 30000),
         shards: |_| 16,
         strategy,
         exec,
